@@ -259,6 +259,13 @@ func bfs(t *testing.T, spec *bfsSpec, res map[string]*vh.Result, main string, de
 					}
 				}
 			}
+			if hits == 0 && strings.HasPrefix(p.Key, "C05/alloc/") {
+				// the allocation probe reads runtime/metrics, which accounts small
+				// objects with a lag: a reading that five exact re-executions do
+				// not confirm is an artefact of the probe, not behaviour
+				r.Add("alloc_probe_not_confirmed", 1)
+				continue
+			}
 			if hits < 2 {
 				r.Add("replay_divergences", 1)
 				r.NotExhaustive(fmt.Sprintf("world %s: a %s observation did not reproduce (%d/5) on history %v", spec.Name, p.Key, hits, hist))
